@@ -46,7 +46,7 @@ def _potential(c, atoms, spec="case"):
     return abtem.Potential(atoms, gpts=c["gpts"], slice_thickness=1.0, exit_planes=spec)
 
 
-def gen_case(ctx: Ctx, traced=False):
+def gen_case(ctx: Ctx, stratum=-1):
     rng = ctx.rng
     n = rng.randint(1, 4)
     ncfg = rng.choice([1, 2, 2, 3, 4])
@@ -71,10 +71,23 @@ def gen_case(ctx: Ctx, traced=False):
     # entry state: how the incident waves reach multislice_and_detect — through the builder API, or as a Waves object in
     # real / reciprocal space; which algorithm (step kernel) runs the slices
     entry = "builder" if builder == "prism" else rng.choice(["builder", "real", "reciprocal", "reciprocal"])
-    algorithm = "fourier" if builder == "prism" else rng.choice(["fourier", "fourier", "fourier-conjugate", "realspace"])
+    algorithm = "fourier" if builder == "prism" else rng.choice(["fourier", "fourier", "fourier-conjugate"] + (["realspace"] if ctx.thorough else []))  # (the real-space kernel costs a long JIT compilation per process; quick tier exercises it traced only)
+    lazy = rng.random() < 0.5
+    kind_e = rng.choice(["frozen", "frozen", "atoms_ensemble"])
+    # strata (deterministic part of the design): the regions where the loop's entry state and the ensemble bookkeeping meet
+    if stratum == 0 and builder != "prism":      # eager, incident waves handed over in reciprocal space, several configurations
+        lazy, entry = False, "reciprocal"
+        seeds = rng.sample(range(1, 10 ** 6), rng.randint(2, 3))
+    elif stratum == 1:                            # lazy, several configurations, seeded ensemble
+        lazy, kind_e = True, "frozen"
+        seeds = rng.sample(range(1, 10 ** 6), rng.randint(2, 3))
+    elif stratum == 2 and builder != "prism":     # eager, several configurations, several exit planes
+        lazy = False
+        seeds = rng.sample(range(1, 10 ** 6), rng.randint(2, 4))
+        spec = [-1, n - 1] if n > 1 else 1
     return dict(entry=entry, algorithm=algorithm,
                 nslices=n, atoms=atoms, spec=spec, seeds=seeds, sigma=rng.choice([0.05, 0.1, 0.2]), builder=builder, det=det,
-                scan=scan, gpts=rng.choice([8, 12]), lazy=rng.random() < 0.5, kind=rng.choice(["frozen", "frozen", "atoms_ensemble"]),
+                scan=scan, gpts=rng.choice([8, 12]), lazy=lazy, kind=kind_e,
                 mean=(rng.random() < 0.35 and det != "waves"), directions=rng.choice(["xyz", "xy"]))
 
 
@@ -247,7 +260,9 @@ class C02(Property):
     id = "C02"
     props_file = "AbtemVerif/Props/C02.lean"
     drive_file = "AbtemVerif/Drive/C02.lean"
-    extra_lean = ["AbtemVerif/Lib/Multislice.lean"]
+    # the supporting lemmas of Lib/Multislice.lean are used by (hence audited through) the property theorems; they are counted
+    # and audited on their own in the thorough tier only (a second Mathlib import costs up to a minute on a loaded machine)
+    extra_lean = ["AbtemVerif/Lib/Multislice.lean"] if "thorough" in sys.argv else []
     trusted = [
         "tagging kernels of harness/msd_trace.py (history-recording multislice step; slices of atom-built potentials are "
         "identified by content hash against independently built single-configuration potentials)",
@@ -402,8 +417,8 @@ class C02(Property):
                 ctx.violation("result-depends-on-processing-order", c, {"what": why, "case": tag})
 
     def conformance(self, ctx: Ctx):
-        for i in range(ctx.n(40, 300)):
-            c = gen_case(ctx)
+        for i in range(ctx.n(24, 300)):
+            c = gen_case(ctx, stratum=i % 6)
             try:
                 self.oracle(ctx, c)
             except Exception as e:  # noqa
